@@ -8,9 +8,10 @@
     * a file that is new or changed is in the log, or is an output of the failed build that the first
       loop of `_roll_back` removes                                                     (`fresh`)
     * an output of the failed build at the place of a pre-build file was moved aside first (`moved`)
-    * no directory sits at a logged path                                               (`nodir`)
+    * every directory that was not there before the build is one the build knows it made (`newdirs`)
   (`harness/fbh/rbcheck.py` evaluates exactly this predicate on every rollback of the generated histories.)
-  Then after `rollBack` the regular files are exactly those of `P0`, with their bytes and modification times.
+  Then after `rollBack` the regular files are exactly those of `P0`, with their bytes and modification times, and
+  no new directory remains (directories the previous build had recorded as created may reappear).
 -/
 import FB.Rollback
 import FB.Props.C02Backups
@@ -95,6 +96,83 @@ theorem restoreAll_file_from : ∀ (saved : List (Path × Entry)) (fs : FS) (q :
         rw [this]; exact List.mem_cons_self ..
       · exact Or.inr h''
 
+/-- `rmdir` of a directory without entries succeeds -/
+theorem rmdirStep_removes (fs : FS) (d : Path) (hne : d ≠ []) (hd : fs.get d = some .dir)
+    (hempty : ∀ n, fs.get (d ++ [n]) = none) : (rmdirStep fs d).get d = none := by
+  unfold rmdirStep
+  have hc : fs.childNames d = [] := (childNames_eq_nil_iff fs d).mpr hempty
+  have : fs.rmdir d = .ok (fs.erase d) := by simp [FS.rmdir, hne, hd, hc]
+  rw [this]
+  exact get_erase_self _ _ hne
+
+theorem rmdirStep_none (fs : FS) (d q : Path) (h : fs.get q = none) : (rmdirStep fs d).get q = none := by
+  rcases rmdirStep_get fs d q with h' | ⟨_, h1, _, _⟩
+  · rw [h', h]
+  · rw [h] at h1; cases h1
+
+/-- a set `S` of directories every entry of which is again in `S`: removing the listed directories deepest
+    first removes all of them -/
+theorem foldl_rmdir_removes (S : Path → Prop) : ∀ (l : List Path) (fs : FS),
+    l.Pairwise (fun a b => a.length ≥ b.length) →
+    (∀ d, S d → d ≠ [] ∧ (fs.get d = none ∨ fs.get d = some .dir)) →
+    (∀ d, S d → ∀ n, fs.get (d ++ [n]) ≠ none → S (d ++ [n])) →
+    (∀ d, S d → d ∉ l → fs.get d = none) →
+    ∀ d, S d → (l.foldl rmdirStep fs).get d = none := by
+  intro l
+  induction l with
+  | nil => intro fs _ _ _ hout d hd; exact hout d hd (by simp)
+  | cons h rest ih =>
+    intro fs hp hkind hclosed hout d hd
+    simp only [List.foldl]
+    have hp' := List.pairwise_cons.mp hp
+    apply ih (rmdirStep fs h) hp'.2
+    · intro x hx
+      obtain ⟨h1, h2⟩ := hkind x hx
+      refine ⟨h1, ?_⟩
+      rcases rmdirStep_get fs h x with h' | ⟨_, _, _, h4⟩
+      · rw [h']; exact h2
+      · exact Or.inl h4
+    · intro x hx n hn
+      apply hclosed x hx n
+      intro hnone
+      exact hn (rmdirStep_none fs h _ hnone)
+    · intro x hx hxr
+      by_cases hxh : x = h
+      · subst hxh
+        obtain ⟨hne, hk⟩ := hkind x hx
+        rcases hk with hk | hk
+        · exact rmdirStep_none fs x x hk
+        · apply rmdirStep_removes fs x hne hk
+          intro n
+          by_contra hn
+          have hc := hclosed x hx n hn
+          -- the entry is in `S`, longer than `x`, hence not in the rest of the list: it is gone already
+          have hnr : (x ++ [n]) ∉ x :: rest := by
+            intro hm
+            rcases List.mem_cons.mp hm with e | hm'
+            · have := congrArg List.length e; simp at this
+            · have := hp'.1 _ hm'; simp at this
+          exact hn (hout _ hc hnr)
+      · exact rmdirStep_none fs h x (hout x hx (by simp [hxh, hxr]))
+    · exact hd
+
+theorem rmEmpty_removes (S : Path → Prop) (fs : FS) (ds : List Path)
+    (hkind : ∀ d, S d → d ≠ [] ∧ (fs.get d = none ∨ fs.get d = some .dir))
+    (hclosed : ∀ d, S d → ∀ n, fs.get (d ++ [n]) ≠ none → S (d ++ [n]))
+    (hlisted : ∀ d, S d → fs.get d ≠ none → d ∈ ds) :
+    ∀ d, S d → (rmEmpty fs ds).get d = none := by
+  rw [rmEmpty_eq]
+  apply foldl_rmdir_removes S _ fs
+  · have := List.pairwise_mergeSort (le := fun (a b : Path) => decide (a.length ≥ b.length))
+      (fun a b c h1 h2 => by simp at h1 h2 ⊢; omega) (fun a b => by simp; omega) ds
+    exact this.imp (fun h => by simpa using h)
+  · exact hkind
+  · exact hclosed
+  · intro d hd hnm
+    by_contra hne
+    exact hnm (List.mem_mergeSort.mpr (hlisted d hd hne))
+
+
 structure Undoable (P0 P : FS) (r : RB) : Prop where
   saved_nodup : (r.bk.saved.map (·.1)).Nodup
   saved_pre : ∀ x ∈ r.bk.saved, P0.get x.1 = some x.2 ∧ ∃ c m, x.2 = .file c m
@@ -102,17 +180,76 @@ structure Undoable (P0 P : FS) (r : RB) : Prop where
   fresh : ∀ p c m, P.get p = some (.file c m) → P0.get p = some (.file c m) ∨ p ∈ r.bk.saved.map (·.1) ∨
             (p ∈ r.newOutputs ∧ removable r p = true)
   moved : ∀ p ∈ r.newOutputs, removable r p = true → P0.isFile p = true → p ∈ r.bk.saved.map (·.1)
-  nodir : ∀ p ∈ r.bk.saved.map (·.1), P.isDir p = false
-
+  /-- every directory that was not there before the build is one the build knows it made -/
+  newdirs : ∀ d, P.isDir d = true → P0.isDir d = false → d ∈ r.createdDirs
 
 theorem createDirs_eq (fs : FS) (ds : List Path) :
     createDirs fs ds = mkdirs fs (ds.mergeSort (fun a b => a.length ≤ b.length)) := rfl
 
-/-- **C02, the undo algorithm**: after `_roll_back` the regular files are exactly the pre-build ones -/
+theorem mkdirStep_get_mem (fs : FS) (d q : Path) :
+    (mkdirStep fs d).get q = fs.get q ∨ (q = d ∧ fs.get q = none ∧ (mkdirStep fs d).get q = some .dir) := by
+  unfold mkdirStep
+  cases h : fs.mkdir d with
+  | error e => simp
+  | ok fs' =>
+    simp only
+    rw [get_mkdir fs fs' d q h]
+    by_cases hq : q = d
+    · subst hq; right; simp [mkdir_absent fs fs' q h]
+    · left; simp [hq]
+
+theorem mkdirs_get_mem (ds : List Path) (fs : FS) (q : Path) :
+    (mkdirs fs ds).get q = fs.get q ∨ (q ∈ ds ∧ fs.get q = none ∧ (mkdirs fs ds).get q = some .dir) := by
+  induction ds generalizing fs with
+  | nil => simp [mkdirs]
+  | cons d r ih =>
+    have hstep : mkdirs fs (d :: r) = mkdirs (mkdirStep fs d) r := rfl
+    rw [hstep]
+    rcases ih (mkdirStep fs d) with h | ⟨hm, h1, h2⟩
+    · rcases mkdirStep_get_mem fs d q with h' | ⟨he, h1', h2'⟩
+      · left; rw [h, h']
+      · right; exact ⟨by simp [he], h1', by rw [h, h2']⟩
+    · rcases mkdirStep_get_mem fs d q with h' | ⟨_, _, h2'⟩
+      · right; exact ⟨by simp [hm], by rw [← h', h1], h2⟩
+      · rw [h2'] at h1; cases h1
+
+/-- where the directories after `restore_all` come from: they were there, or are parents of a restored file -/
+theorem restoreAll_dir_from : ∀ (saved : List (Path × Entry)) (fs : FS) (q : Path),
+    (∀ x ∈ saved, ∃ c m, x.2 = .file c m) →
+    (saved.foldl restoreOne fs).get q = some .dir → fs.get q = some .dir ∨ ∃ x ∈ saved, properPrefix q x.1 := by
+  intro saved
+  induction saved with
+  | nil => intro fs q _ h; exact Or.inl h
+  | cons x rest ih =>
+    intro fs q hfile h
+    simp only [List.foldl] at h
+    rcases ih (restoreOne fs x) q (fun y hy => hfile y (List.mem_cons_of_mem _ hy)) h with h' | ⟨y, hy, hp⟩
+    · by_cases hq : q = x.1
+      · subst hq
+        obtain ⟨c, m, hc⟩ := hfile x (List.mem_cons_self ..)
+        unfold restoreOne at h'
+        split at h'
+        · exact Or.inl h'
+        · cases hm : makedirs fs x.1.dropLast with
+          | none => rw [hm] at h'; exact Or.inl h'
+          | some fs' =>
+            rw [hm] at h'
+            simp only at h'
+            by_cases hne : x.1 = []
+            · left; rw [hne, get_nil]
+            · rw [get_set_self _ _ _ hne, hc] at h'; cases h'
+      · rcases restoreOne_other fs x q hq with h'' | ⟨_, _, hp⟩
+        · left; rw [← h'', h']
+        · exact Or.inr ⟨x, List.mem_cons_self .., hp⟩
+    · exact Or.inr ⟨y, List.mem_cons_of_mem _ hy, hp⟩
+
+/-- **C02, the undo algorithm**: after `_roll_back` the regular files are exactly the pre-build ones, with their
+    bytes and modification times, and no directory remains that was not there before — except that directories
+    the previous build had recorded as created may reappear -/
 theorem rollBack_restores_files (P0 P : FS) (r : RB) (hwf0 : TreeWF P0) (h : Undoable P0 P r) :
     (∀ p c m, P0.get p = some (.file c m) → (rollBack P r).get p = some (.file c m)) ∧
-    (∀ p c m, (rollBack P r).get p = some (.file c m) → P0.get p = some (.file c m)) := by
-  -- the four phases
+    (∀ p c m, (rollBack P r).get p = some (.file c m) → P0.get p = some (.file c m)) ∧
+    (∀ d, (rollBack P r).isDir d = true → P0.isDir d = true ∨ d ∈ r.oldCreatedDirs) := by
   have hF1 := removeNew_spec P r
   -- a regular file that survives the first loop is a pre-build file or logged
   have hsurv : ∀ q c m, (removeNew P r).get q = some (.file c m) →
@@ -132,21 +269,75 @@ theorem rollBack_restores_files (P0 P : FS) (r : RB) (hwf0 : TreeWF P0) (h : Und
     obtain ⟨x, hx, rfl⟩ := List.mem_map.mp hp
     obtain ⟨h1, c, m, h2⟩ := h.saved_pre x hx
     simp [FS.isFile, h1, h2]
-  have hfile_pre : ∀ q c m, (rmEmpty (removeNew P r) r.createdDirs).get q = some (.file c m) → P0.isFile q = true := by
+  have hsurv0 : ∀ q c m, (removeNew P r).get q = some (.file c m) → P0.isFile q = true := by
     intro q c m hq
-    have := rmEmpty_file_rev _ _ q c m hq
-    rcases (hsurv q c m this).2 with h1 | h1
+    rcases (hsurv q c m hq).2 with h1 | h1
     · simp [FS.isFile, h1]
     · exact hsaved_file q h1
+  have hfile_pre : ∀ q c m, (rmEmpty (removeNew P r) r.createdDirs).get q = some (.file c m) → P0.isFile q = true :=
+    fun q c m hq => hsurv0 q c m (rmEmpty_file_rev _ _ q c m hq)
+  have hfile_notdir : ∀ q, P0.isFile q = true → P0.isDir q = false := by
+    intro q hq
+    unfold FS.isFile at hq; unfold FS.isDir
+    cases hg : P0.get q with
+    | none => rfl
+    | some e => cases e <;> simp_all
+  have hparent : ∀ q, q ≠ [] → P0.get q ≠ none → P0.isDir q.dropLast = true := fun q hq hg => hwf0 q hq hg
+  -- the directories the failed build made are all gone after the second loop
+  have hgone : ∀ d, (P.isDir d = true ∧ P0.isDir d = false) → (rmEmpty (removeNew P r) r.createdDirs).get d = none := by
+    apply rmEmpty_removes (fun d => P.isDir d = true ∧ P0.isDir d = false)
+    · intro d ⟨hd, hd0⟩
+      have hne : d ≠ [] := by intro e; subst e; simp [FS.isDir, get_nil] at hd0
+      refine ⟨hne, Or.inr ?_⟩
+      have hg : P.get d = some .dir := by
+        unfold FS.isDir at hd
+        cases hg : P.get d with
+        | none => simp [hg] at hd
+        | some e => cases e <;> simp_all
+      rw [hF1]
+      have : P.isFile d = false := by simp [FS.isFile, hg]
+      simp [this, hg]
+    · intro d ⟨_, hd0⟩ n hn
+      have hPn : P.get (d ++ [n]) ≠ none := by
+        intro e
+        apply hn
+        rw [hF1]; split
+        · rfl
+        · exact e
+      have hne : d ++ [n] ≠ [] := by simp
+      have hdl : (d ++ [n]).dropLast = d := by simp
+      have hno0 : P0.get (d ++ [n]) = none := by
+        by_contra hc
+        have := hparent _ hne hc
+        rw [hdl, hd0] at this; cases this
+      cases hg : P.get (d ++ [n]) with
+      | none => exact absurd hg hPn
+      | some e =>
+        cases e with
+        | dir => exact ⟨by simp [FS.isDir, hg], by simp [FS.isDir, hno0]⟩
+        | file c m =>
+          exfalso
+          have h1 : (removeNew P r).get (d ++ [n]) = some (.file c m) := by
+            cases hg1 : (removeNew P r).get (d ++ [n]) with
+            | none => exact absurd hg1 hn
+            | some e' =>
+              rw [hF1] at hg1
+              split at hg1
+              · cases hg1
+              · rw [hg] at hg1; exact hg1.symm ▸ rfl
+          have := hsurv0 _ c m h1
+          simp [FS.isFile, hno0] at this
+    · intro d ⟨hd, hd0⟩ _
+      exact h.newdirs d hd hd0
   -- `restore_all` finds every logged path free
   have hready : ∀ x ∈ r.bk.saved, x.1 ≠ [] ∧ (rmEmpty (removeNew P r) r.createdDirs).isDir x.1 = false ∧
       ∀ a, a <+: x.1.dropLast → (rmEmpty (removeNew P r) r.createdDirs).isFile a = false := by
     intro x hx
     obtain ⟨h1, c, m, h2⟩ := h.saved_pre x hx
     have hne : x.1 ≠ [] := by intro e; rw [e, get_nil, h2] at h1; cases h1
+    have hx0 := hsaved_file x.1 (List.mem_map.mpr ⟨x, hx, rfl⟩)
     refine ⟨hne, ?_, ?_⟩
-    · have hnd := h.nodir x.1 (List.mem_map.mpr ⟨x, hx, rfl⟩)
-      cases hd : (rmEmpty (removeNew P r) r.createdDirs).isDir x.1 with
+    · cases hd : (rmEmpty (removeNew P r) r.createdDirs).isDir x.1 with
       | false => rfl
       | true =>
         exfalso
@@ -159,10 +350,13 @@ theorem rollBack_restores_files (P0 P : FS) (r : RB) (hwf0 : TreeWF P0) (h : Und
           rcases rmEmpty_get r.createdDirs (removeNew P r) x.1 with h' | ⟨_, _, h3⟩
           · rw [← h', hg]
           · rw [hg] at h3; cases h3
-        rw [hF1] at hg1
-        split at hg1
-        · cases hg1
-        · simp [FS.isDir, hg1] at hnd
+        have hgP : P.get x.1 = some .dir := by
+          rw [hF1] at hg1
+          split at hg1
+          · cases hg1
+          · exact hg1
+        have := hgone x.1 ⟨by simp [FS.isDir, hgP], hfile_notdir _ hx0⟩
+        rw [hg] at this; cases this
     · intro a ha
       cases hf : (rmEmpty (removeNew P r) r.createdDirs).isFile a with
       | false => rfl
@@ -176,7 +370,6 @@ theorem rollBack_restores_files (P0 P : FS) (r : RB) (hwf0 : TreeWF P0) (h : Und
             | dir => simp [hg] at hf
             | file c' m' => exact ⟨c', m', rfl⟩
         have hpf := hfile_pre a c' m' hg
-        have hne' := dropLast_ne_of_ne_nil hne ha
         have hlt : a.length < x.1.length := by
           have h3 := ha.length_le
           rw [List.length_dropLast] at h3
@@ -184,10 +377,7 @@ theorem rollBack_restores_files (P0 P : FS) (r : RB) (hwf0 : TreeWF P0) (h : Und
           omega
         have hdir := hwf0.isDir_prefix (x.1.length - a.length - 1) a x.1 (ha.trans (List.dropLast_prefix _)) (by omega)
           (by rw [h1]; simp)
-        unfold FS.isFile at hpf; unfold FS.isDir at hdir
-        cases hg0 : P0.get a with
-        | none => simp [hg0] at hpf
-        | some e => cases e <;> simp_all
+        rw [hfile_notdir a hpf] at hdir; cases hdir
   have hanti : ∀ x ∈ r.bk.saved, ∀ y ∈ r.bk.saved, ¬ properPrefix x.1 y.1 := by
     intro x hx y hy ⟨hp, hne⟩
     have hxf := hsaved_file x.1 (List.mem_map.mpr ⟨x, hx, rfl⟩)
@@ -197,15 +387,12 @@ theorem rollBack_restores_files (P0 P : FS) (r : RB) (hwf0 : TreeWF P0) (h : Und
       · exact h'
       · exact absurd (hp.eq_of_length_le h') hne
     have hdir := hwf0.isDir_prefix (y.1.length - x.1.length - 1) x.1 y.1 hp (by omega) (by rw [h1]; simp)
-    unfold FS.isFile at hxf; unfold FS.isDir at hdir
-    cases hg0 : P0.get x.1 with
-    | none => simp [hg0] at hxf
-    | some e => cases e <;> simp_all
+    rw [hfile_notdir _ hxf] at hdir; cases hdir
   obtain ⟨hs1, hs2⟩ := restoreAll_spec r.bk.saved (rmEmpty (removeNew P r) r.createdDirs) h.saved_nodup hanti
     (fun x hx => (h.saved_pre x hx).2) hready
   have hroll : rollBack P r = mkdirs (r.bk.saved.foldl restoreOne (rmEmpty (removeNew P r) r.createdDirs))
       (r.oldCreatedDirs.mergeSort (fun a b => a.length ≤ b.length)) := rfl
-  constructor
+  refine ⟨?_, ?_, ?_⟩
   · intro p c m hp0
     rw [hroll]
     apply mkdirs_file
@@ -235,6 +422,41 @@ theorem rollBack_restores_files (P0 P : FS) (r : RB) (hwf0 : TreeWF P0) (h : Und
       · rcases (hsurv p c m (rmEmpty_file_rev _ _ p c m h')).2 with h'' | h''
         · exact h''
         · exact absurd h'' hps
+  · intro d hd
+    rw [hroll] at hd
+    have hg : (mkdirs (r.bk.saved.foldl restoreOne (rmEmpty (removeNew P r) r.createdDirs))
+        (r.oldCreatedDirs.mergeSort (fun a b => a.length ≤ b.length))).get d = some .dir := by
+      unfold FS.isDir at hd
+      split at hd
+      · assumption
+      · cases hd
+    rcases mkdirs_get_mem _ _ d with h' | ⟨hm, _, _⟩
+    · rw [h'] at hg
+      rcases restoreAll_dir_from r.bk.saved _ d (fun x hx => (h.saved_pre x hx).2) hg with h2 | ⟨x, hx, hp, hne⟩
+      · -- it was there after the second loop: not one the failed build made
+        left
+        have hg1 : (removeNew P r).get d = some .dir := by
+          rcases rmEmpty_get r.createdDirs (removeNew P r) d with h'' | ⟨_, _, h3⟩
+          · rw [← h'', h2]
+          · rw [h2] at h3; cases h3
+        have hgP : P.get d = some .dir := by
+          rw [hF1] at hg1
+          split at hg1
+          · cases hg1
+          · exact hg1
+        cases h0 : P0.isDir d with
+        | true => rfl
+        | false =>
+          have := hgone d ⟨by simp [FS.isDir, hgP], h0⟩
+          rw [h2] at this; cases this
+      · left
+        obtain ⟨h1, _⟩ := h.saved_pre x hx
+        have hlt : d.length < x.1.length := by
+          rcases Nat.lt_or_ge d.length x.1.length with h'' | h''
+          · exact h''
+          · exact absurd (hp.eq_of_length_le h'') hne
+        exact hwf0.isDir_prefix (x.1.length - d.length - 1) d x.1 hp (by omega) (by rw [h1]; simp)
+    · right; exact List.mem_mergeSort.mp hm
 
 end Rollback
 end FB
